@@ -189,5 +189,12 @@ theorem deposit_issues_those_shares (V tds : Dec) (x : Int) (htds : tds ≠ 0) (
 example : let tds' := 3 * one + mulInt (quo (3 * one) (10 * one)) 5
     tds' = 4500000000000000000 ∧ (10 * one + 5 * P) * (3 * one) - (10 * one) * tds' = 0 := by decide
 
+
+/-- … in every state of every history, with no hypothesis on the state -/
+theorem claim_changes_no_delegators_value_everywhere (w0 w w' : World) (hr : ReachG (clearModuleStore w0) w)
+    (del : Acct) (v : ValId) (d : Option Denom) (h : step (.claim del v d) w = (.ok (), w'))
+    (del' : Acct) (v' : ValId) (d' : Denom) : qDelegation w' del' v' d' = qDelegation w del' v' d' :=
+  claim_changes_no_reported_balance_in_every_history w0 w w' hr del v d h del' v' d'
+
 end C04
 end Alliance
